@@ -325,4 +325,27 @@ def AVal.contents : AVal → Bytes
   | .oob none => []
   | .oob (some t) => readTree t
 
+/-! ## JSON documents: leaf chunks of `SerializeJsonToAddr` (json_chunker.go)
+
+`SerializeJsonToAddr` marshals the document to its serialized text, puts the whole text into the
+chunker's buffer (`appendJsonToBuffer`), runs `processBuffer` once and then `Done`.
+`processBuffer` lets the `JsonScanner` advance from one JSON location to the next; at each location
+(value offset `p`, location key `key`) the candidate segment is `buffer[chunkStart:p]`, and if
+`crossesBoundary(key, segment)` it is written as a leaf blob and `chunkStart := p`.  `Done` (no
+cursor) writes the remaining buffer `buffer[chunkStart:]` as the final blob.
+The scanner (which offsets are JSON locations, with which keys) and the boundary predicate
+(size limits + xxHash/Weibull) are parameters: `locs` is the list of offsets the scanner stops
+at, `boundary k seg` the decision at the `k`-th stop. -/
+def jsonChunks (boundary : Nat → Bytes → Bool) (text : Bytes) : List Nat → Nat → Nat → List Bytes
+  | [], start, _ => [text.drop start]
+  | p :: ps, start, k =>
+    let seg := (text.drop start).take (p - start)
+    if boundary k seg then seg :: jsonChunks boundary text ps p (k + 1)
+    else jsonChunks boundary text ps start (k + 1)
+
+/-- the offsets a scanner can deliver: non-decreasing, inside the text, not before the chunk start -/
+def ScanOffsets (len : Nat) : Nat → List Nat → Prop
+  | _, [] => True
+  | start, p :: ps => start ≤ p ∧ p ≤ len ∧ ScanOffsets len p ps
+
 end DoltVerif.BigValues
